@@ -424,7 +424,7 @@ func (fr *Frame) execCall(ins ssa.CallInstruction, cc *ssa.CallCommon) []Term {
 		c.note("call of %s without contract: all heaps havocked", shortKey(ci.key))
 		m := newModSet()
 		m.all = true
-		c.havoc(fr.st, m, "unmodelled call "+shortKey(ci.key))
+		c.havocCallee(fr.st, m, "unmodelled call "+shortKey(ci.key))
 		res = fr.freshResults(ci.sig.Results(), "r_"+lastSeg(ci.key))
 	}
 	for _, f := range reacquire {
@@ -702,7 +702,7 @@ func (fr *Frame) applyContract(ins ssa.CallInstruction, ci *calleeInfo, args []T
 			}
 		}
 		m.alloc = true // the callee may allocate: the counter moves up
-		c.havoc(post, m, "call "+shortKey(ci.key))
+		c.havocCallee(post, m, "call "+shortKey(ci.key))
 	}
 	fr.st = post
 	res := fr.freshResults(ci.sig.Results(), "r_"+short)
